@@ -35,14 +35,17 @@ CLAIMS = {
             "in the ELF symbol readers (hash-table lookups, symtab loader, version and dynamic-section readers): "
             "libelf results that fail on corrupted sections are checked before use, reads through section-data "
             "pointers are preceded by a size test, divisions by sh_entsize are guarded and no assertion depends on "
-            "file contents - or the site is one of 15 recorded, replayed findings",
+            "file contents (the 15 sites found were repaired one by one); reads are bounded per pointer by the size of "
+            "the very section they point into (provenance); R-ELFALLOC: no allocation is sized from an unvalidated "
+            "section-header count",
             "elfutils' own memory safety; the DWARF part of the reader; ppc64-only paths are listed as undecided",
             "§3 R-ELFNULL, R-ELFBOUND, R-INASSERT; §4 C34"),
     "C14": ("type-directed loop classification (address-dependent containers from canonical template arguments) and "
             "pointer-comparison lint over every comparator handed to std::sort and the ordering helpers it delegates to",
             "loops over pointer-keyed / interned_string-keyed unordered containers and pointer-ordered sets never "
             "emit and only fill associative containers or vectors that are sorted afterwards; no sort comparator "
-            "orders by address",
+            "orders by address; R-TIEBREAK: comparators over decl_base / type_base do not fall back on a bare name "
+            "(a type and its typedef would tie and let the hash order through)",
             "loop bodies calling arbitrary side-effecting functions are not classified; uninitialised memory and "
             "elfutils nondeterminism are not decided",
             "§3 R-UNORD, R-PTRCMP; §4 C14"),
@@ -113,7 +116,8 @@ CLAIMS = {
     "C07": ("constant evaluation of enum masks, categoriser -> mask table agreement, option-guard extraction (AST)",
             "harmless and harmful masks are disjoint and cover every category with the three special ones; each "
             "category a categoriser assigns lies in its mask and vice versa; is_filtered_out consults only the "
-            "allowed mask; the masks are switched off exactly under !--harmless / --no-harmful",
+            "allowed mask; the masks are switched off exactly under !--harmless / --no-harmful; R-PEELTOTAL: no "
+            "categoriser obtains `the type without its qualifiers` by one get_underlying_type() step (qualifiers nest)",
             "which category a particular change receives (runtime)",
             "§3 R-CATPART, R-OPTWIRE; §4 C07"),
     "C10": ("table extraction (net counter -> counters -> containers fed, section loop -> skip predicate -> "
@@ -170,7 +174,8 @@ CLAIMS = {
             "no null compiled regex reaches regex::match; every section reader is dominated by the validator that "
             "rejects a section with an uncompilable *_regexp; all regex-carrying property names end in that suffix (or "
             "are in the validator's name table, if it is written that way); "
-            "parameter '/regex/ specs are compiled before acceptance",
+            "parameter '/regex/ specs are compiled before acceptance; R-MEMOKEY: a result memoised in a suppression "
+            "object never depends on a parameter that is not part of the cache key",
             "insertion-range arithmetic (has_data_member_inserted_*) and name matching itself are runtime",
             "§3 R-RXNULL, R-RXPRES (now R-RXVALID); §4 C24"),
     "C25": ("non-null dataflow (nullable-producer table, check-then-recompute and ABG_ASSERT idioms), class-invariant "
@@ -283,7 +288,9 @@ CLAIMS = {
             "every artifact diff's has_changes() is the negation of the IR deep-equality operator applied to the "
             "node's own first/second subjects; one deviant sibling (array_diff) is a recorded finding. R-EQSYM: every "
             "==/!= inside an ir::equals(l, r, k) overload whose operands derive from the parameters pairs the same "
-            "accessor path of l and of r (or is a same-side bound, an end() sentinel, or a mirrored constant test)",
+            "accessor path of l and of r (or is a same-side bound, an end() sentinel, or a mirrored constant test); "
+            "every boolean predicate applied to one operand has its mirror on the other (found and repaired: "
+            "equals(enum_type_decl) looked for redundant enumerator values in `r` twice)",
             "symmetry of equals() over cyclic type graphs (canonical-type propagation) and hash consistency are "
             "runtime properties and are not decided; R-EQSYM decides only the syntactic pairing",
             "§3 R-HASCHG, §4 C21"),
